@@ -28,6 +28,10 @@ CRS_TABLE = [
     ("utm", {"proj": "utm", "zone": 33, "ellps": "WGS84"}, (3e5, 6.0e6, 7.5e5, 6.2e6)),
     ("lcc", {"proj": "lcc", "lat_1": 30, "lat_2": 60, "lat_0": 45, "lon_0": 10, "ellps": "WGS84"}, (-6e5, -6e5, 6e5, 6e5)),
     ("laea_km", {"proj": "laea", "lat_0": 50, "lon_0": 10, "ellps": "WGS84", "units": "km"}, (-300.0, -200.0, 300.0, 200.0)),
+    # non-Greenwich prime meridians: lon/lats are always relative to Greenwich, whichever accessor produces them
+    ("eqc_pm180", {"proj": "eqc", "lon_0": 0, "pm": 180, "ellps": "WGS84"}, (-2e6, -1e6, 2e6, 3e6)),
+    ("laea_pm_paris", {"proj": "laea", "lat_0": 48, "lon_0": 3, "pm": "paris", "ellps": "WGS84"}, (-3.5e5, -4.5e5, 3.5e5, 4.5e5)),
+    ("longlat_pm180", {"proj": "longlat", "pm": 180, "ellps": "WGS84"}, (-20.0, 30.0, 25.0, 60.0)),
 ]
 
 
@@ -49,7 +53,7 @@ def _areas(ctx):
         out.append((f"ll_{w}x{h}", _mk(LL, w, h, (-8.0, 16.0, -8.0 + w * 0.5, 16.0 + h * 0.25)), True))
     out.append(("ll_flipped_y", _mk(LL, 4, 3, (-8.0, 17.5, -6.0, 16.0)), True))
     out.append(("ll_flipped_x", _mk(LL, 4, 3, (-6.0, 16.0, -8.0, 17.5)), True))
-    table = CRS_TABLE if not ctx.quick else CRS_TABLE[:6] + CRS_TABLE[8:]
+    table = CRS_TABLE if not ctx.quick else CRS_TABLE[:6] + CRS_TABLE[8:9] + [ctx.rng.choice(CRS_TABLE[9:])]
     for name, proj, ext in table:
         w, h = r.randrange(2, 9), r.randrange(2, 9)
         out.append((f"{name}_{w}x{h}", _mk(proj, w, h, ext), False))
